@@ -250,6 +250,17 @@ def _layer_filters_source(repo: Repo, T, view: FuncInfo, it: ast.expr, layer_var
         inner = _layer_filters_source(repo, T, view, e.args[-1] if e.func.id == "filter" else e.args[0], layer_var)
         if inner[0] in ("all", "part"):
             return "part", text
+    if isinstance(e, (ast.List, ast.Tuple)) and len(e.elts) == 1 and not isinstance(e.elts[0], ast.Starred):
+        # one element per layer: an element picked out of the layer's filters is a part of them
+        x = single_value(view, e.elts[0])
+        if isinstance(x, ast.Subscript) and not isinstance(x.slice, ast.Slice):
+            inner = _layer_filters_source(repo, T, view, x.value, layer_var)
+            if inner[0] in ("all", "part"):
+                return "part", text
+        if isinstance(x, ast.Call) and isinstance(x.func, ast.Name) and x.func.id in ("next", "min", "max") and x.args:
+            inner = _layer_filters_source(repo, T, view, x.args[0], layer_var)
+            if inner[0] in ("all", "part"):
+                return "part", text
     if isinstance(e, ast.IfExp):
         a = _layer_filters_source(repo, T, view, e.body, layer_var)
         b = _layer_filters_source(repo, T, view, e.orelse, layer_var)
@@ -295,47 +306,123 @@ def check_are_named(repo: Repo, res: Result) -> FuncInfo | None:
         return None
     call, receiver = handoffs[0]
     arg = call.args[0] if call.args else call.keywords[0].value
-    prods = productions(view, arg)
+
+    def follow(v: FuncInfo, c: ast.Call):
+        src = getattr(c, "_src", None)
+        ctx, orig = src if src is not None else (v, c)
+        try:
+            cs, how = T.callees(ctx, orig, byname_fallback=False)
+        except Exception:  # noqa: BLE001
+            return None
+        cs = [x for x in cs if not x.is_abstract and x.cls is not None and x.cls.fq in lr_mro]
+        if len(cs) != 1 or how != "repo" or isinstance(cs[0].node, ast.Lambda):
+            return None
+        return dview(repo, cs[0], lr, lambda a, b: b.cls is not None and b.cls.fq in lr_mro, tag="lr")
+
+    prods = productions(view, arg, follow=follow)
     if not prods or any(p.elt is None for p in prods):
         bad = next((p for p in prods if p.elt is None), None)
         res.undecide("C05.R1", construct, f"cannot follow how the module specifications `{norm(arg, 60)}` are built" + (f" (`{norm(bad.merged, 60)}`)" if bad is not None and bad.merged is not None else ""), where_of(view, call))
         return receiver
     ok_all = True
     for p in prods:
+        pv = p.view or view
         verdict, detail = _judge_lowering(repo, T, view, p, layers_param)
         if verdict == "undecided":
-            res.undecide("C05.R1", key_of(repo, view, p.node, " [layer lowering]"), detail, where_of(view, p.node))
+            res.undecide("C05.R1", key_of(repo, pv, p.node, " [layer lowering]"), detail, where_of(pv, p.node))
             ok_all = False
         elif verdict == "violated":
-            res.add("C05.R1", key_of(repo, view, p.node, " [layer lowering]"), False, detail, where_of(view, p.node), kind="flow")
+            res.add("C05.R1", key_of(repo, pv, p.node, " [layer lowering]"), False, detail, where_of(pv, p.node), kind="flow")
             ok_all = False
     if ok_all:
         res.add("C05.R1", construct, True, "every module filter of every named layer reaches the wrapped rule as (identifier, identifier_is_regex)", where(an, an.node), kind="flow")
     return receiver
 
 
+def _flatten_loops(view: FuncInfo, loops: list, cnds: list, rounds: int = 4) -> tuple[list, list]:
+    """Rewrites the innermost loop when it ranges over an intermediate collection, so that two-step constructions
+    (`filters = [m for l in layers for m in A[l]]`, `chain.from_iterable(A[l] for l in layers)`) read like the nested loops."""
+    loops, cnds = list(loops), list(cnds)
+    for _ in range(rounds):
+        if not loops:
+            break
+        t, it = loops[-1]
+        src = _strip_transparent(single_value(view, it))
+        comp = None
+        flat = False
+        if isinstance(src, ast.Call):
+            fn = src.func
+            nm = fn.attr if isinstance(fn, ast.Attribute) else fn.id if isinstance(fn, ast.Name) else ""
+            if nm == "from_iterable" and len(src.args) == 1:
+                comp, flat = _strip_transparent(single_value(view, src.args[0])), True
+            elif nm == "chain" and len(src.args) == 1 and isinstance(src.args[0], ast.Starred):
+                comp, flat = _strip_transparent(single_value(view, src.args[0].value)), True
+            elif nm == "sum" and len(src.args) == 2 and isinstance(src.args[1], (ast.List, ast.Tuple)) and not src.args[1].elts:
+                comp, flat = _strip_transparent(single_value(view, src.args[0])), True
+        elif isinstance(src, (ast.ListComp, ast.GeneratorExp, ast.SetComp)):
+            comp = src
+        elif isinstance(src, ast.Name) and src.id not in view.param_names:
+            prods = productions(view, src)
+            if len(prods) == 1 and prods[0].elt is not None and prods[0].loops:
+                q = prods[0]
+                if isinstance(q.elt, ast.Name) and q.elt.id in target_names(q.loops[-1][0]) and isinstance(q.loops[-1][0], ast.Name):
+                    loops = loops[:-1] + q.loops[:-1] + [(t, q.loops[-1][1])]
+                else:
+                    loops = loops[:-1] + q.loops + [(t, ast.List(elts=[q.elt], ctx=ast.Load()))]
+                cnds = q.conds + cnds
+                continue
+            break
+        if not isinstance(comp, (ast.ListComp, ast.GeneratorExp, ast.SetComp)):
+            break
+        gens = [(g.target, g.iter) for g in comp.generators]
+        ifs = [(c, True) for g in comp.generators for c in g.ifs]
+        if flat:
+            loops = loops[:-1] + gens + [(t, comp.elt)]
+        elif isinstance(comp.elt, ast.Name) and isinstance(gens[-1][0], ast.Name) and comp.elt.id == gens[-1][0].id:
+            loops = loops[:-1] + gens[:-1] + [(t, gens[-1][1])]
+        else:
+            loops = loops[:-1] + gens + [(t, ast.List(elts=[comp.elt], ctx=ast.Load()))]
+        cnds = ifs + cnds
+    return loops, cnds
+
+
 def _judge_lowering(repo: Repo, T, view: FuncInfo, p: Production, layers_param: str | None) -> tuple[str, str]:
+    pv = p.view or view
     elt = p.elt
     if not (isinstance(elt, ast.Tuple) and len(elt.elts) == 2):
         return "undecided", f"module specification `{norm(elt, 60)}` is not an (identifier, is-regex) pair"
-    ident, flag = (single_value(view, x) for x in elt.elts)
-    if not p.loops:
+    ident, flag = (single_value(pv, x) for x in elt.elts)
+    loops, cnds = _flatten_loops(pv, p.loops, p.conds)
+    if not loops:
         return "undecided", f"`{norm(elt, 60)}` is not produced per module filter of a layer"
     # innermost loop: the module filter
-    mt, mit = p.loops[-1]
+    mt, mit = loops[-1]
     mvars = target_names(mt)
     if not (isinstance(ident, ast.Attribute) and ident.attr == "identifier" and isinstance(ident.value, ast.Name) and ident.value.id in mvars):
         return ("violated" if not (names_in(ident) & mvars) else "undecided"), f"the first component `{norm(ident, 50)}` is not the identifier of the layer's module filter"
-    if not (isinstance(flag, ast.Attribute) and flag.attr == "identifier_is_regex" and isinstance(flag.value, ast.Name) and flag.value.id == ident.value.id):
-        if isinstance(flag, ast.Constant) or not (names_in(flag) & mvars):
+    mvar = ident.value.id
+
+    def flagsub(e: ast.expr):
+        if isinstance(e, ast.Attribute) and e.attr == "identifier_is_regex" and isinstance(e.value, ast.Name) and e.value.id == mvar:
+            return atom("IS_REGEX")
+        return None
+
+    ff = to_formula(flag, flagsub)
+    if atoms_of(ff) <= {"IS_REGEX"}:
+        from core.guards import equivalent
+
+        if not equivalent(ff, atom("IS_REGEX")):
             return "violated", f"the regex flag handed to the rule is `{norm(flag, 40)}`, not the module filter's own `identifier_is_regex`: a layer is not lowered to its module filters with their own regex flag"
+    elif not (names_in(flag) & mvars):
+        return "violated", f"the regex flag handed to the rule is `{norm(flag, 40)}`, not the module filter's own `identifier_is_regex`: a layer is not lowered to its module filters with their own regex flag"
+    else:
         return "undecided", f"the regex flag `{norm(flag, 50)}` is derived from the module filter in an unrecognised way"
     # the loop over the named layers
-    outer = p.loops[:-1]
+    outer = loops[:-1]
     layer_vars: set[str] = set()
     for t, _it in outer:
         layer_vars |= target_names(t)
-    kind, text = _layer_filters_source(repo, T, view, mit, layer_vars)
+    kind, text = _layer_filters_source(repo, T, pv, mit, layer_vars)
     if kind == "part":
         return "violated", f"only a part of the layer's module filters is lowered (`{text}`): a layer is the union of *all* its listed modules"
     if kind == "unknown":
@@ -343,15 +430,19 @@ def _judge_lowering(repo: Repo, T, view: FuncInfo, p: Production, layers_param: 
     if len(outer) != 1:
         return "undecided", f"{len(outer)} loops around the module-filter loop (expected one loop over the named layers)"
     lt, lit = outer[0]
-    over_param = layers_param is not None and _derives_from_param(view, lit, layers_param)
     # conditions that can drop an element
-    filters = []
     loop_vars = layer_vars | mvars
-    for c, pol in p.conds:
-        if names_in(c) & loop_vars and cond_origin(view, c) == "filter":
-            filters.append(c)
+    filters = [c for c, pol in cnds if names_in(c) & loop_vars and cond_origin(pv, c) == "filter"]
     if filters:
         return "violated", f"`{norm(filters[0], 60)}` decides whether a module filter of a named layer is lowered at all: named layers (or some of their modules) can be dropped silently"
+    over_param = False
+    if p.view is not None and p.binding is not None:
+        # the loop ranges over a parameter of the helper; the caller passes (the listified form of) its own parameter
+        for q, a in p.binding.items():
+            if _derives_from_param(pv, lit, q) and layers_param is not None and _derives_from_param(p.caller or view, a, layers_param):
+                over_param = True
+    else:
+        over_param = layers_param is not None and _derives_from_param(pv, lit, layers_param)
     if not over_param:
         return "undecided", f"the layer loop iterates `{norm(lit, 60)}`, not the layers named in the rule"
     return "ok", ""
@@ -417,7 +508,9 @@ def _maker_sites(repo: Repo, T, ctx: FuncInfo, node_iter, classes: dict[str, str
             except Exception:  # noqa: BLE001
                 ci = None
             if ci is not None and ci.fq in classes:
-                out.append((classes[ci.fq], _site_formula(ctx, n, env, pre, flagsub), n, ctx))
+                if _direct_ref(repo, T, c_ctx, orig.func):
+                    out.append((classes[ci.fq], _site_formula(ctx, n, env, pre, flagsub), n, ctx))
+                # else: a class held in a variable / table is called - the places where it was chosen are the sites
                 continue
             # helper that creates the filter (not inlined because it sits in an expression): follow it with its arguments bound
             try:
@@ -436,21 +529,86 @@ def _maker_sites(repo: Repo, T, ctx: FuncInfo, node_iter, classes: dict[str, str
                         here = _site_conds(ctx, n, env)
                         _maker_sites(repo, T, callee, [x for s in callee.node.body for x in ast.walk(s)], classes, binding, pre + here, depth + 1, out, flagsub)
         elif isinstance(n, (ast.Attribute, ast.Name)) and isinstance(n.ctx, ast.Load) and not (isinstance(parent(n), ast.Call) and parent(n).func is n):
-            # a reference to a factory function / bound method that is called later
+            # a *direct* reference to a filter class / factory function / bound method that is called later (a local variable
+            # holding such a reference is not a site of its own: the places where it was bound are)
             src = getattr(n, "_src", None)
             c_ctx, orig = src if src is not None else (ctx, n)
+            if not _direct_ref(repo, T, c_ctx, orig):
+                continue
             try:
                 t = T.expr(c_ctx, orig)
             except Exception:  # noqa: BLE001
                 continue
             for m in members(t):
+                kind = None
                 if m[0] == "fn" and isinstance(m[1], FuncInfo) and not isinstance(m[1].node, ast.Lambda) and m[1].module.name == RULE:
                     kinds = {_ctor_kind(repo, T, m[1], x, classes) for x in ast.walk(m[1].node) if isinstance(x, ast.Call)} - {None}
                     rets = [r for r in own_nodes(m[1].node) if isinstance(r, ast.Return)]
                     if len(kinds) == 1 and len(rets) == 1:
-                        out.append((kinds.pop(), _site_formula(ctx, n, env, pre, flagsub), n, ctx))
-                elif m[0] == "type" and m[1] in classes and not isinstance(parent(n), ast.Call):
-                    out.append((classes[m[1]], _site_formula(ctx, n, env, pre, flagsub), n, ctx))
+                        kind = kinds.pop()
+                elif m[0] == "type" and m[1] in classes:
+                    kind = classes[m[1]]
+                if kind is None:
+                    continue
+                sel = _selector_formula(ctx, n, flagsub)
+                if sel == "unknown":
+                    out.append(("unknown", None, n, ctx))
+                else:
+                    f = _site_formula(ctx, n, env, pre, flagsub)
+                    out.append((kind, f if sel is None else f_and([f, sel]), n, ctx))
+
+
+def _direct_ref(repo: Repo, T, c_ctx: FuncInfo, e: ast.expr) -> bool:
+    """The expression names a class / function itself (module-level name, import, `self.method`), not a variable holding one."""
+    if isinstance(e, ast.Name):
+        if not isinstance(c_ctx.node, ast.Lambda) and e.id in T.locals(c_ctx) and e.id not in c_ctx.module.classes and e.id not in c_ctx.module.imports and e.id not in c_ctx.module.functions:
+            return False
+        f = c_ctx.outer
+        while f is not None:
+            if not isinstance(f.node, ast.Lambda) and e.id in T.locals(f) and e.id not in c_ctx.module.classes and e.id not in c_ctx.module.imports:
+                return False
+            f = f.outer
+        fq = repo.resolve_name(c_ctx.module, e)
+        return e.id in c_ctx.module.classes or e.id in c_ctx.module.functions or (fq is not None and (fq in repo.classes or fq.rpartition(".")[0] in repo.modules))
+    if isinstance(e, ast.Attribute) and isinstance(e.value, ast.Name):
+        return e.value.id in ("self", "cls") or e.value.id in c_ctx.module.classes or e.value.id in c_ctx.module.imports
+    return False
+
+
+def _selector_formula(ctx: FuncInfo, n: ast.AST, flagsub):
+    """A class / factory stored in a literal table `{True: A, False: B}` / `(B, A)` is selected by the subscript of the table:
+    formula under which this entry is picked; None when `n` is not a table entry; 'unknown' when the selection was not found."""
+    p = parent(n)
+    want = None
+    if isinstance(p, ast.Dict) and n in p.values:
+        k = p.keys[p.values.index(n)]
+        if isinstance(k, ast.Constant) and isinstance(k.value, (bool, int)) and k.value in (0, 1, True, False):
+            want = bool(k.value)
+        else:
+            return "unknown"
+    elif isinstance(p, (ast.Tuple, ast.List)) and n in p.elts and len(p.elts) == 2 and isinstance(parent(p), (ast.Subscript, ast.Assign, ast.AnnAssign)):
+        want = bool(p.elts.index(n))
+    else:
+        return None
+    selectors: list[ast.expr] = []
+    gp = parent(p)
+    if isinstance(gp, ast.Subscript) and gp.value is p:
+        selectors.append(gp.slice)
+    elif isinstance(gp, (ast.Assign, ast.AnnAssign)):
+        tgt = gp.targets[0] if isinstance(gp, ast.Assign) else gp.target
+        if isinstance(tgt, ast.Name):
+            for x in all_nodes(ctx):
+                if isinstance(x, ast.Subscript) and isinstance(x.ctx, ast.Load) and isinstance(x.value, ast.Name) and x.value.id == tgt.id:
+                    selectors.append(x.slice)
+                elif isinstance(x, ast.Call) and isinstance(x.func, ast.Attribute) and x.func.attr == "get" and isinstance(x.func.value, ast.Name) and x.func.value.id == tgt.id and x.args:
+                    selectors.append(x.args[0])
+    if not selectors:
+        return "unknown"
+    from core.guards import f_or
+
+    fs = [to_formula(sel, flagsub) for sel in selectors]
+    f = f_or(fs) if want else f_and([f_not(x) for x in fs])
+    return f if len(selectors) == 1 else (f_or(fs) if want else f_or([f_not(x) for x in fs]))
 
 
 def _ctor_kind(repo: Repo, T, ctx: FuncInfo, call: ast.Call, classes: dict[str, str]) -> str | None:
@@ -520,6 +678,10 @@ def check_filter_selection(repo: Repo, res: Result, receiver: FuncInfo | None) -
     sites: list = []
     _maker_sites(repo, T, view, list(all_nodes(view)), classes, {}, [], 0, sites, flagsub)
     kinds = {k for k, _f, _n, _c in sites}
+    unknown = [n for k, _f, n, _c in sites if k == "unknown"]
+    if unknown:
+        res.undecide("C05.R1", construct, f"a filter class is kept in a table (`{norm(parent(unknown[0]), 60)}`) whose selection by the is-regex flag was not found", where_of(view, unknown[0]))
+        return
     if "regex" not in kinds or "name" not in kinds:
         missing = sorted({"regex", "name"} - kinds)
         res.add("C05.R1", construct, False, f"no {' / '.join(missing)} filter is created from the (identifier, is-regex) pairs: the regex flag does not select ModuleNameRegexFilter vs ModuleNameFilter", where(receiver, receiver.node), kind="structural")
